@@ -241,7 +241,7 @@ theorem stageC_le (o : Opts) (u : TUnit) : UnitLe S u (stageC o u) := by
   · exact ladj u
 
 theorem stageD_le (o : Opts) (u : TUnit) (hm : o.removeMutable = false) : UnitLe S u (stageD o u) := by
-  unfold stageD
+  unfold stageD stageD2 stageD1
   simp only [hm]
   have l1 := tyPass_le (S := S) simplifyContainers (fun _ => true) (fun t _ => simplifyContainers_le S t) u
     (fun _ _ => rfl)
